@@ -360,6 +360,7 @@ def run(ctx):
   for (fn, p), why in FRESH_LIST_PARAMS.items():
     ctx.notes.append(f'allowed parameter mutation {fn}({p}): {why}')
   fresh_list_callers(ctx)
+  inplace_on_state(ctx)
   state_is_data(ctx)
   # R3 / R2 static-field constancy / R4
   from . import C07, C04, C12
@@ -471,6 +472,198 @@ def state_is_data(ctx):
         if default is not None and isinstance(default, (ast.List, ast.Dict, ast.Set)):
           ctx.ob('C14.R2', ci.fq.split('.', 1)[1], f'mutable class-level default `{fname}`', False,
                  'a mutable default shared between instances is state outside the pytree', f'{os.path.relpath(ci.module.path, m.repo)}:{ci.node.lineno}')
+
+
+INPLACE_FIXTURE = '''
+def bad_alias(axis_state):
+  v = axis_state.eigvecs
+  v *= 2
+  return v
+def bad_loop(state):
+  for s, t in zip(state.stats, state.roots):
+    s += t
+def bad_direct(state):
+  state.stats[0] *= 2
+def _scale(old, k):
+  old *= k
+  return old
+def bad_call(block):
+  for axis, cov in enumerate(block.stats):
+    _scale(cov, 2)
+def fine(axis_state):
+  v = axis_state.eigvecs
+  v = v * 2
+  v *= 3
+  n = axis_state.eigvecs.shape
+  n += (1,)
+  return v, n
+'''
+_NON_ARRAY_ATTRS = {'shape', 'dtype', 'ndim', 'size', 'itemsize', 'nbytes'}
+
+
+def _pure_chain(e):
+  """(root name, attribute names) of a Name / Attribute / Subscript chain; None for anything that builds a new value"""
+  attrs = []
+  while isinstance(e, (ast.Attribute, ast.Subscript)):
+    if isinstance(e, ast.Attribute):
+      attrs.append(e.attr)
+    e = e.value
+  return (e.id, attrs) if isinstance(e, ast.Name) else None
+
+
+def inplace_params(fn):
+  """parameters of `fn` that are updated by an augmented assignment while they still are the caller's object"""
+  params = [a.arg for a in fn.args.posonlyargs + fn.args.args + fn.args.kwonlyargs]
+  live = {p_: True for p_ in params}
+  out = set()
+
+  def visit(stmts):
+    for st in stmts:
+      if isinstance(st, (ast.FunctionDef, ast.AsyncFunctionDef, ast.ClassDef)):
+        continue
+      if isinstance(st, ast.AugAssign) and isinstance(st.target, ast.Name):
+        if live.get(st.target.id) and not isinstance(st.value, (ast.Tuple, ast.List)):
+          out.add(st.target.id)
+        live[st.target.id] = False
+      elif isinstance(st, (ast.Assign, ast.AnnAssign)):
+        for t in (st.targets if isinstance(st, ast.Assign) else [st.target]):
+          for n in ast.walk(t):
+            if isinstance(n, ast.Name):
+              live[n.id] = False
+      elif isinstance(st, (ast.For, ast.AsyncFor)):
+        for n in ast.walk(st.target):
+          if isinstance(n, ast.Name):
+            live[n.id] = False
+      for fld in ('body', 'orelse', 'finalbody'):
+        sub = getattr(st, fld, None)
+        if isinstance(sub, list) and sub and isinstance(sub[0], ast.stmt):
+          visit(sub)
+      for h in getattr(st, 'handlers', []) or []:
+        visit(h.body)
+  visit(fn.body)
+  return [(i, p_) for i, p_ in enumerate(params) if p_ in out]
+
+
+def inplace_sites(fn, state_fields, callees=None):
+  """AugAssign statements of function `fn` whose target is (an alias of) a value read out of a state record: a Name bound
+  - by plain assignment, tuple unpacking or a for loop (also through zip / enumerate) - to a Name/Attribute/Subscript chain
+  that goes through a state field, and not re-bound to a computed value since.  Statement order within the function."""
+  out = []
+  alias = {}
+
+  def is_state_expr(e):
+    ch = _pure_chain(e)
+    if ch is None:
+      return False
+    root, attrs = ch
+    if attrs and attrs[0] in _NON_ARRAY_ATTRS:      # outermost attribute: x.shape etc. are immutable values
+      return False
+    return any(a in state_fields for a in attrs) or alias.get(root, False)
+
+  def bind(target, is_state):
+    for n in ast.walk(target):
+      if isinstance(n, ast.Name):
+        alias[n.id] = is_state
+
+  def iter_state(it):
+    if isinstance(it, ast.Call) and isinstance(it.func, ast.Name) and it.func.id in ('zip', 'enumerate', 'reversed', 'list', 'tuple'):
+      return any(iter_state(a) for a in it.args)
+    return is_state_expr(it)
+
+  def calls_of(st):
+    """calls in the statement's own expressions (bodies of compound statements are visited on their own)"""
+    exprs = []
+    for fld, val in ast.iter_fields(st):
+      if fld in ('body', 'orelse', 'finalbody', 'handlers'):
+        continue
+      vals = val if isinstance(val, list) else [val]
+      exprs += [v_ for v_ in vals if isinstance(v_, ast.AST)]
+    for e in exprs:
+      for n in ast.walk(e):
+        if isinstance(n, ast.Call) and isinstance(n.func, ast.Name):
+          yield n
+
+  def visit(stmts):
+    for st in stmts:
+      if isinstance(st, (ast.FunctionDef, ast.AsyncFunctionDef, ast.ClassDef)):
+        continue
+      if isinstance(st, (ast.For, ast.AsyncFor)):
+        pass          # the header is looked at after the target is bound? no: the iterable is evaluated first
+      for c in (calls_of(st) if callees else ()):
+        for i, pname in callees.get(c.func.id, ()):
+          arg = c.args[i] if i < len(c.args) and not any(isinstance(a_, ast.Starred) for a_ in c.args[:i + 1]) else \
+              next((kw.value for kw in c.keywords if kw.arg == pname), None)
+          if arg is not None and is_state_expr(arg):
+            out.append((st, f'`{ast.unparse(c)}`: `{c.func.id}` updates its parameter `{pname}` in place, and the argument `{ast.unparse(arg)}` is a value read from the state record'))
+      if isinstance(st, ast.Assign):
+        v = is_state_expr(st.value) or (isinstance(st.value, (ast.Tuple, ast.List)) and False)
+        for t in st.targets:
+          if isinstance(t, (ast.Name, ast.Tuple, ast.List)):
+            bind(t, v)
+      elif isinstance(st, ast.AnnAssign) and st.value is not None and isinstance(st.target, ast.Name):
+        bind(st.target, is_state_expr(st.value))
+      elif isinstance(st, ast.AugAssign):
+        t = st.target
+        if isinstance(st.value, (ast.Tuple, ast.List)):
+          pass        # `xs += (a,)`: sequence concatenation, the sequence is re-bound (tuple) or is the caller's business (C14.R1 mutate-param)
+        elif isinstance(t, ast.Name):
+          if alias.get(t.id, False):
+            out.append((st, f'`{ast.unparse(st)}`: `{t.id}` still is the value read from the state record'))
+          alias[t.id] = False
+        elif is_state_expr(t):
+          out.append((st, f'`{ast.unparse(st)}` updates a state field in place'))
+      elif isinstance(st, (ast.For, ast.AsyncFor)):
+        bind(st.target, iter_state(st.iter))
+        visit(st.body)
+        visit(st.orelse)
+        continue
+      for fld in ('body', 'orelse', 'finalbody'):
+        sub = getattr(st, fld, None)
+        if isinstance(sub, list) and sub and isinstance(sub[0], ast.stmt):
+          visit(sub)
+      for h in getattr(st, 'handlers', []) or []:
+        visit(h.body)
+  visit(fn.body)
+  return out
+
+
+def inplace_on_state(ctx):
+  """R1b: no augmented assignment (`x *= ..`, `x += ..`) on a value that still IS a leaf read from a state record.  For a
+  jax array `x *= y` rebinds a new array; for a numpy array - what flax.serialization.from_bytes puts into a restored
+  state - it multiplies in place: the caller's state changes under its feet, or, for the read-only buffers of a restore,
+  the first eager update raises.  (found F22.)"""
+  m = ctx.model
+  fx = ast.parse(INPLACE_FIXTURE)
+  fx_callees = {f.name: inplace_params(f) for f in fx.body if isinstance(f, ast.FunctionDef) and inplace_params(f)}
+  hits = {f.name: len(inplace_sites(f, {'eigvecs', 'stats', 'roots'}, fx_callees)) for f in fx.body if isinstance(f, ast.FunctionDef)}
+  if hits != {'bad_alias': 1, 'bad_loop': 1, 'bad_direct': 1, '_scale': 0, 'bad_call': 1, 'fine': 0}:
+    raise AnalysisError(f'C14.R1b positive fixture not matched ({hits})')
+  fields = set()
+  for mod, nm in _state_class_closure(m):
+    fields |= {f for f, _, _ in m.cls(mod, nm).fields}
+  if len(fields) < 20:
+    raise AnalysisError(f'C14.R1b: only {len(fields)} state field names found')
+  n = 0
+  for mod in SCOPE:
+    mi = m.modules[mod]
+    # functions of this module (by simple name) that update a parameter in place while it is the caller's object
+    callees = {}
+    for short, fi in mi.functions.items():
+      ip = inplace_params(fi.node)
+      if ip:
+        callees.setdefault(fi.node.name, []).extend(ip)
+    for short, fi in sorted(mi.functions.items()):
+      n += 1
+      sites = inplace_sites(fi.node, fields, callees)
+      for st, why in sites:
+        ctx.ob('C14.R1', short, f'in-place update of a state leaf: {norm_src(st)}', False,
+               f'{why}; with numpy leaves (a state restored by flax.serialization) this modifies the caller\'s state in place or raises "output array is read-only" - write `x = x * ...`',
+               ctx.loc(fi, st))
+      if not sites:
+        ctx.ob('C14.R1', short, 'no in-place update of state leaves', True, '', '', sample=None, trivial=True)
+  ctx.need('C14.R1', n, 150, 'functions scanned for in-place updates of state leaves')
+  ctx.samples.append(dict(rule='C14.R1', site='optimizer modules', construct=f'{n} functions, {len(fields)} state field names', verdict='ok',
+                          detail='no augmented assignment on a value aliased from a state record'))
 
 
 def init_counters(ctx):
